@@ -1348,6 +1348,12 @@ func (p c10) best(c *core.C, r *core.Rand) {
 	default:
 		c.Cover("accessor:Checksums:none")
 	}
+	// with both lists present "best" is not pinned down by the statement (the code at the pinned commit takes
+	// SHA-256, the stronger SHA-512 is just as defensible): either list, whole and correctly tagged, is right
+	if has256 && has512 && reflect.DeepEqual(normalizeNil(cs), normalizeNil(s512)) {
+		want = s512
+		c.Cover("accessor:Checksums:both-present-took-sha512")
+	}
 	if !reflect.DeepEqual(normalizeNil(cs), normalizeNil(want)) {
 		c.Failf("BestChecksums.Checksums() = %+v, the document says %+v\ndocument: %q", cs, want, text)
 	}
